@@ -1202,6 +1202,9 @@ func (x *Exec) chClosed(ch *ChanV) bool {
 func (x *Exec) chanReadyRecv(ch *ChanV) bool { return ch != nil && (len(ch.Buf) > 0 || x.chClosed(ch)) }
 
 func (x *Exec) doSelect(fr *Frame, in *ssa.Select) {
+	if x.sched && in.Blocking {
+		x.yield() // a select is a scheduling point: another goroutine may run before readiness is looked at
+	}
 	ready := func() []int {
 		var r []int
 		for i, st := range in.States {
